@@ -47,6 +47,10 @@ def sdv__str(glob_pattern: StringSdv) -> MatcherSdv[str]:
 
 
 def _match_path(model: Path, pattern: str) -> bool:
+    # Path.match raises ValueError for the empty pattern.
+    # The empty pattern matches no path (as the empty pattern for a name, e.g.)
+    if not pattern:
+        return False
     return model.match(pattern)
 
 
